@@ -38,7 +38,7 @@ func init() { commands["importx"] = cmdImportx }
 type impAction struct {
 	WithOrig   bool   // import_shift: the stream is export ++ shifted export (else the shifted export only)
 	DLog, DTx  int64  // import_shift: offsets added to the log ids / transaction ids of the exported logs
-	Kind       string // import | import_shift | write
+	Kind       string // import | import_stale | import_shift | resolve | write
 	Path       string // single | bulk | atomic
 	Drop, Take int    // import: slice of the export; Take < 0: to the end
 	Now        int64
@@ -52,6 +52,12 @@ type impCase struct {
 }
 
 func (a impAction) sx() string {
+	if a.Kind == "resolve" {
+		return L("resolve")
+	}
+	if a.Kind == "import_stale" {
+		return L("import_stale", fmt.Sprint(a.Drop), fmt.Sprint(a.Take), fmt.Sprint(a.Now))
+	}
 	if a.Kind == "import_shift" {
 		return L("import_shift", b01(a.WithOrig), fmt.Sprint(a.Now), fmt.Sprint(a.DLog), fmt.Sprint(a.DTx))
 	}
@@ -87,7 +93,11 @@ func parseImpCase(line string) impCase {
 	feat, _ := parseHistCase(L("hist", sxString(sx.List[1]), L()))
 	c := impCase{Feat: feat, Ops: ops(sx.List[2])}
 	for _, a := range sx.List[3].List {
-		if a.List[0].Atom == "import_shift" {
+		if a.List[0].Atom == "resolve" {
+			c.Script = append(c.Script, impAction{Kind: "resolve"})
+		} else if a.List[0].Atom == "import_stale" {
+			c.Script = append(c.Script, impAction{Kind: "import_stale", Drop: int(atoi(a.List[1].Atom)), Take: int(atoi(a.List[2].Atom)), Now: atoi(a.List[3].Atom)})
+		} else if a.List[0].Atom == "import_shift" {
 			c.Script = append(c.Script, impAction{Kind: "import_shift", WithOrig: a.List[1].Atom == "1", Now: atoi(a.List[2].Atom), DLog: atoi(a.List[3].Atom), DTx: atoi(a.List[4].Atom)})
 		} else if a.List[0].Atom == "import" {
 			c.Script = append(c.Script, impAction{Kind: "import", Drop: int(atoi(a.List[1].Atom)), Take: int(atoi(a.List[2].Atom)), Now: atoi(a.List[3].Atom)})
@@ -104,7 +114,10 @@ type impStack struct {
 	ctx  context.Context
 	feat Feat
 	a, b ledgercontroller.Controller
-	dead bool
+	// stale: a SECOND facade of the copy, built by its own GetLedgerController call (action "resolve") as an HTTP request
+	// does when it starts; its cached ledger state is the row as it was at that moment
+	stale ledgercontroller.Controller
+	dead  bool
 }
 
 // facadeBeginsTX: does the state tracker facade of the tree under test run the handleState protocol in BeginTX
@@ -533,7 +546,12 @@ func (s *impStack) script(run *impRun, logs []ledger.Log) *impRun {
 			continue
 		}
 		switch a.Kind {
-		case "import", "import_shift":
+		case "resolve":
+			var err error
+			s.stale, err = s.st.Sys.GetLedgerController(s.ctx, "l2")
+			must(err)
+			run.Results = append(run.Results, L("resolve"))
+		case "import", "import_shift", "import_stale":
 			before := s.st.Snapshot(s.ctx, s.b, "l2", c.Feat)
 			part := sliceLogs(logs, a.Drop, a.Take)
 			if a.Kind == "import_shift" {
@@ -542,9 +560,18 @@ func (s *impStack) script(run *impRun, logs []ledger.Log) *impRun {
 					part = append(append([]ledger.Log{}, logs...), part...)
 				}
 			}
-			isExport := a.Kind == "import"
+			isExport := a.Kind == "import" || a.Kind == "import_stale"
+			via := s.b
+			if a.Kind == "import_stale" {
+				if s.stale == nil {
+					var err error
+					s.stale, err = s.st.Sys.GetLedgerController(s.ctx, "l2")
+					must(err)
+				}
+				via = s.stale
+			}
 			s.st.PG.Clock = pgsem.TS(a.Now)
-			err := realImport(s.ctx, s.b, part)
+			err := realImport(s.ctx, via, part)
 			cls := importClass(err)
 			after := s.st.Snapshot(s.ctx, s.b, "l2", c.Feat)
 			res := L("import", cls)
@@ -849,13 +876,52 @@ func cmdImportx(args []string) int {
 			out.Violation("C11", s11bCase, msg)
 		}
 	}
+	finishS := func(run *simpRun) {
+		cs := run.Case.sx()
+		out.Case(cs, run.Impl)
+		out.Stats["cases"]++
+		out.Stats["schema_cases"]++
+		out.Stats["schema_mode_"+run.Case.Mode]++
+		out.Stats["exported_logs"] += run.Exported
+		if run.Schemas > 0 && run.Exported >= 3 {
+			out.Stats["distinct_nontrivial"]++
+		}
+		if run.Mixed {
+			out.Stats["schema_versioned_then_unversioned_create"]++
+		}
+		for _, v := range run.Viol {
+			out.Violation("C11", cs, v)
+		}
+	}
 	if f.Replay != "" {
 		for _, line := range ReadLines(f.Replay) {
+			if strings.HasPrefix(line, "(importx_schema ") {
+				finishS(runSimpCase(parseSimpCase(line), nil))
+				continue
+			}
 			if strings.HasPrefix(line, "(importx_s11b") {
 				s11b()
 				continue
 			}
 			finish(runImpCase(parseImpCase(line), nil))
+		}
+		return 0
+	}
+	if f.Extra["profile"] == "schemas" {
+		r := NewRng(f.Seed)
+		for i := 0; i < f.N; i++ {
+			rr := r.Fork()
+			mode := "audit" // un-versioned writes are accepted next to versioned ones
+			if rr.Chance(25) {
+				mode = "strict"
+			}
+			c := simpCase{Mode: mode, Now: int64(1700000000)*1000000 + 3600*1000000}
+			finishS(runSimpCase(c, func(exec func(SOp) OpResult) {
+				genSHistory(rr, 8, exec)
+				if rr.Chance(65) {
+					genSchemaTail(rr, exec)
+				}
+			}))
 		}
 		return 0
 	}
@@ -871,17 +937,22 @@ func cmdImportx(args []string) int {
 		c := impCase{Feat: feats[i%len(feats)]}
 		finish(runImpCase(c, func(s *impStack) ([]Op, []impAction) {
 			var ops []Op
+			var committed []Op // the operations of the source that appended a log, in log order
 			genHistory(rr, prof, c.Feat, func(o Op) OpResult {
 				if refsProfile && o.Kind == "create" && rr.Chance(70) {
 					o.Ref = Pick(rr, []string{"r1", "r2", "ref:3", "inv-7"})
 				}
 				ops = append(ops, o)
-				return s.stepA(o)
+				res := s.stepA(o)
+				if res.Panic == "" && res.Class == "none" && !o.Dry && !res.Hit {
+					committed = append(committed, o)
+				}
+				return res
 			})
 			if refsProfile {
 				return ops, genRefScript(rr, s)
 			}
-			return ops, genScript(rr, ops)
+			return ops, genScript(rr, ops, committed)
 		}))
 	}
 	return 0
@@ -993,7 +1064,7 @@ func genRefScript(r *Rng, s *impStack) []impAction {
 	}
 }
 
-func genScript(r *Rng, src []Op) []impAction {
+func genScript(r *Rng, src []Op, committed []Op) []impAction {
 	base := int64(1700000000)*1000000 + 3600*1000000
 	now := base
 	tick := func() int64 { now += 60 * 1000000; return now }
@@ -1013,6 +1084,25 @@ func genScript(r *Rng, src []Op) []impAction {
 	k := r.Intn(100)
 	split := 1 + r.Intn(3)
 	switch {
+	case k < 12 && len(committed) >= 2:
+		// C12, stale facade: request A resolves its controller (cache = initializing), request B writes and completes, request A
+		// imports logs whose ids are above the stored ones.  The write replays the source operation that appended log j+1 (same
+		// clock), so that the copy's log j+1 equals the source's and, with HASH_LOGS, the rest of the stream chains on it: only
+		// the state test (on the ROW re-read under the lock) can refuse the import.
+		j := r.Intn(len(committed) - 1) // logs 1..j imported first (possibly none), log j+1 written, logs j+2.. imported stale
+		if j > 0 {
+			sc = append(sc, imp(0, j))
+		}
+		sc = append(sc, impAction{Kind: "resolve"})
+		w := committed[j]
+		sc = append(sc, impAction{Kind: "write", Path: Pick(r, []string{"single", "single", "bulk"}), Now: w.Now, Ops: []Op{w}})
+		if w.Kind == "revert" && w.Meta != nil && sc[len(sc)-1].Path == "bulk" {
+			sc[len(sc)-1].Path = "single" // a bulk revert element carries no metadata
+		}
+		sc = append(sc, impAction{Kind: "import_stale", Drop: j + 1, Take: -1, Now: tick()})
+		if r.Chance(40) {
+			sc = append(sc, imp(j+1, -1)) // and once more through the facade that wrote
+		}
 	case k < 55: // C11: full import into the pristine copy, then writes through the paths (the first path rotates)
 		sc = append(sc, imp(0, -1))
 		first := r.Intn(3)
